@@ -70,23 +70,29 @@ func runC15(c *Ctx, ev *Evidence) ([]Violation, error) {
 		ev.Sample(map[string]interface{}{"query": "C15 counterexample " + r.Ob.ID, "input": input, "native": n})
 		if bad == "" {
 			// the model may need an input the wrappers treat differently; try a few canonical ones
-			for _, alt := range []string{" ", "\n\t ", "<b>x</b>", " <p>y</p> ", "x"} {
-				req2 := NativeReq{"op": "entrypoints", "policy": []NativeReq{{"op": "base", "name": "UGC"}}, "input": alt, "chunks": []int{1, 2, 1}}
-				nr2, e2 := RunNative(c.Repo, c.VerifDir, []NativeReq{req2}, "")
-				if e2 != nil {
-					return nil, e2
-				}
-				m := nr2[0]
+			// (blank, markup, and plain text with every character the tokenizer or the
+			// serialiser rewrites: CR, NUL, &, quotes, >, entities, truncated markup)
+			alts := []string{" ", "\n\t ", "<b>x</b>", " <p>y</p> ", "x", "a\rb", "a\r\nb", "\r", "a\x00b", "a&b", "a&amp;b", "it's", "\"q\"", "a>b", "&#x41;", "&lt;", "<!--x-->", "<p", "a\x0cb", "caf\xc3\xa9", "\xff"}
+			var reqs []NativeReq
+			for _, alt := range alts {
+				reqs = append(reqs, NativeReq{"op": "entrypoints", "policy": []NativeReq{{"op": "base", "name": "UGC"}}, "input": alt, "chunks": []int{1, 2, 1}})
+			}
+			nr2, e2 := RunNative(c.Repo, c.VerifDir, reqs, "")
+			if e2 != nil {
+				return nil, e2
+			}
+			for i, alt := range alts {
+				m := nr2[i]
 				a2, _ := m["Sanitize"].(string)
 				for _, k := range []string{"SanitizeBytes", "SanitizeReader", "ToWriter", "PlainWriter"} {
 					if s, _ := m[k].(string); s != a2 {
 						bad = fmt.Sprintf("input %q: %s gives %q, Sanitize gives %q", alt, k, s, a2)
-						req = req2
+						req = reqs[i]
 					}
 				}
 				if strings.TrimSpace(alt) == "" && a2 != alt {
 					bad = fmt.Sprintf("blank input %q is not returned unchanged: %q", alt, a2)
-					req = req2
+					req = reqs[i]
 				}
 				if bad != "" {
 					break
